@@ -12,7 +12,7 @@ namespace Dask.C12R
 open Dask.Generated.TokenRegistry
 
 /-- the classes the Lean models transliterate, with the normaliser each is dispatched to
-    (Model/NormalForm.lean, Model/NormalFormRec.lean, Model/NormalFormPandas.lean) -/
+    (Model/NormalForm.lean, Model/NormalFormRec.lean, Model/NormalFormPandas.lean, Model/NormalFormPandasX.lean) -/
 def modelled : List (String × String × String) :=
   [("_IDENTITY_DISPATCH", "identity", ""), ("(types.MappingProxyType, dict)", "normalize_dict", ""),
    ("set", "normalize_set", ""), ("(tuple, list)", "normalize_seq", ""), ("object", "normalize_object", ""),
@@ -22,14 +22,19 @@ def modelled : List (String × String × String) :=
    ("pd.Categorical", "normalize_categorical", "pandas"),
    ("pd.api.extensions.ExtensionArray", "normalize_extension_array", "pandas"),
    ("pd.api.types.CategoricalDtype", "normalize_categorical_dtype", "pandas"),
-   ("pd.api.extensions.ExtensionDtype", "normalize_period_dtype", "pandas")]
+   ("pd.api.extensions.ExtensionDtype", "normalize_period_dtype", "pandas"),
+   -- extension round (Model/NormalFormPandasX.lean)
+   ("pd.MultiIndex", "normalize_index", "pandas"), ("pd.arrays.PeriodArray", "normalize_period_array", "pandas"),
+   ("pd.arrays.DatetimeArray", "normalize_period_array", "pandas"), ("pd.arrays.TimedeltaArray", "normalize_period_array", "pandas"),
+   ("pd.arrays.IntervalArray", "normalize_interval_array", "pandas"),
+   ("(pd.arrays.IntegerArray, pd.arrays.FloatingArray, pd.arrays.BooleanArray)", "normalize_masked_extension_array", "pandas"),
+   ("type(pd.NA)", "normalize_na", "pandas")]
 
 /-- classes whose normalisers are outside the models: exercised by the oracle-only sections of the harness
     (`opq`, `cat`) -/
 def oracleOnly : List String :=
   ["OrderedDict", "literal", "Compose", "(partial, curry)", "(types.MethodType, types.MethodWrapperType)",
-   "types.BuiltinFunctionType", "pd.MultiIndex", "pd.arrays.PeriodArray", "pd.arrays.DatetimeArray",
-   "pd.arrays.TimedeltaArray", "pd.arrays.IntervalArray", "pd.arrays.ArrowExtensionArray", "type(pd.NA)",
+   "types.BuiltinFunctionType", "pd.arrays.ArrowExtensionArray",
    "pd.offsets.BaseOffset", "numba.core.serialize.ReduceMixin", "pa.DataType", "pa.Table", "pa.ChunkedArray", "pa.Array",
    "pa.Buffer", "np.ma.masked_array", "np.memmap", "np.ufunc", "np.dtype"]
 
